@@ -320,6 +320,67 @@ def run_case(ctx, rng, job):
             if not isinstance(r, bool):
                 ctx.violation('meddling-name-comparison', {'op': oname, 'got': repr(r)})
             r = op(vic, med)
+    # foreign operands that do have a name and a module (classes, functions, namespaces): the documented comparison goes by
+    # the two attributes whatever the other object is; and foreign operands with comparison methods of their own get their
+    # turn (the interface says NotImplemented) when they lack the attributes
+    import types
+
+    class Refl:
+        def __lt__(self, other):
+            return 'refl-lt'
+
+        def __gt__(self, other):
+            return 'refl-gt'
+
+        def __le__(self, other):
+            return 'refl-le'
+
+        def __ge__(self, other):
+            return 'refl-ge'
+
+        def __eq__(self, other):
+            return 'refl-eq'
+
+        def __ne__(self, other):
+            return 'refl-ne'
+
+        __hash__ = None
+    plain_named = [x for x in ifs if type(x.__name__) is str and type(x.__module__) is str]
+    for a in plain_named[:6]:
+        fcls = type(''.join(list(a.__name__)) or 'X', (), {})
+        fcls.__module__ = ''.join(list(a.__module__))
+        others = [fcls, types.SimpleNamespace(__name__='AB', __module__='m'), types.SimpleNamespace(__name__=a.__name__, __module__='zzz')]
+        for f in others:
+            kf = (f.__name__, f.__module__)
+            for oname, op in OPS:
+                ctx.ev()
+                ctx.count('foreign_pairs_with_name_and_module')
+                try:
+                    got = op(a, f)
+                except Exception as e:
+                    got = 'raised %s' % type(e).__name__
+                if got is not op(key(a), kf):
+                    ctx.violation('foreign-operand-with-name-and-module', {'op': oname, 'a': list(key(a)), 'foreign': list(kf),
+                                                                           'got': repr(got), 'expected': op(key(a), kf)})
+        half = types.SimpleNamespace(__name__=a.__name__)       # a name, no module: not comparable
+        ctx.ev()
+        try:
+            ok = (a == half) is False and (a != half) is True
+            try:
+                a < half
+                ok = False
+            except TypeError:
+                pass
+        except Exception:
+            ok = False
+        if not ok:
+            ctx.violation('foreign-operand-with-a-name-only', {'a': list(key(a))})
+        rf = Refl()
+        ctx.ev()
+        ctx.count('foreign_pairs_with_their_own_comparison')
+        got = (a < rf, a <= rf, a > rf, a >= rf, a == rf, a != rf)
+        if got != ('refl-gt', 'refl-ge', 'refl-lt', 'refl-le', 'refl-eq', 'refl-ne'):
+            ctx.violation('foreign-comparison-methods-not-given-their-turn', {'a': list(key(a)), 'got': repr(got)})
     named = [x for x in pool if x.__name__ is not None and x.__module__ is not None]
     for _ in range(300 if big else 120):
         a, b, c = (rng.choice(named) for _ in range(3))
